@@ -56,7 +56,25 @@ def gen_caps(rng):
     return caps
 
 
+UNIQ_POOL = ["", "", "", "input0", "input1", "aa:bb:cc:dd:ee:ff", "11:22:33:44:55:66", "u1", "/input0", "0", " "]
+BUS_POOL = [0, 0, 0, 3, 5, 5, 5, 6, 0x11, 0x18, 0x19, 1, 0xffff]
+
+
 def gen_multiset(rng, n):
+    hs = gen_multiset0(rng, n)
+    # the other descriptive fields of a handler (bus, unique id string, sysfs path, properties) vary freely: handlers of one location that
+    # differ in them, handlers of different locations that agree in them, and strings that, glued to a location, spell another location
+    if rng.random() < 0.7:
+        bt = rng.random() < 0.5        # a family dominated by Bluetooth handlers (all report the adapter address as location)
+        for h in hs:
+            h["bus"] = 5 if bt and rng.random() < 0.8 else rng.choice(BUS_POOL)
+            h["uniq"] = rng.choice(UNIQ_POOL)
+            h["sysfs"] = rng.choice(["", "", "/devices/pci0000:00/usb1/1-%d" % rng.randrange(3), "/devices/virtual/input/input%d" % rng.randrange(40)])
+            h["props"] = rng.sample([0, 1, 2, 3, 4, 5, 6], rng.randrange(0, 3))
+    return hs
+
+
+def gen_multiset0(rng, n):
     """n handlers with pairwise distinct ids; physical locations drawn from k <= n pool entries."""
     k = rng.randint(1, max(1, min(n, 6)))
     if n >= 9 and rng.random() < 0.5:    # many physical locations (growth thresholds of internal tables: 8, 16, 32), handlers interleaved
